@@ -17,7 +17,7 @@ RULES = {
     "R1": "every function that stores to utils._swap_win_size, or stores True to utils._queries_enabled, resets "
           "utils._cell_size_cache[:] to zeros inside `with utils._cell_size_lock` on every normal path after the store; the "
           "store of _queries_enabled=True precedes the invalidations (a concurrent reader must not re-fill a cache with a "
-          "queries-disabled result after it was cleared)",
+          "queries-disabled result after it was cleared); get_cell_size reads _swap_win_size only under _cell_size_lock",
     "R2": "every memo of a value derived from a terminal query (a function decorated with cached/terminal_size_cached, "
           "or a hand-rolled `if X is None: X = ...` memo, from which query_terminal is reachable in the call graph) is "
           "invalidated by enable_queries()",
@@ -25,7 +25,7 @@ RULES = {
           "an RLock created once per decorated function; invalidate takes the same lock; terminal_size_cached stores the "
           "terminal size it compared",
     "R4": "get_cell_size: the cache key compared and the key stored are the same get_terminal_size() value read once under "
-          "_cell_size_lock, and every path that computes a size reaches the store before returning",
+          "_cell_size_lock, and every path that computes a size reaches the store before returning (hit edges are recognised from the traced tests; every return reachable without a hit edge is dominated by the store)",
     "R5": "set_cell_ratio stores a number for FIXED/explicit ratios and None for DYNAMIC; get_cell_ratio returns the stored "
           "value if truthy and otherwise recomputes from get_cell_size(); _cell_ratio has no other writer",
 }
